@@ -24,6 +24,12 @@ def holdsN : NPc → Bool
   | .epoch | .flush | .scan | .mark | .unlock => true
   | _ => false
 
+/-- `notify(pred)` / `notify_relaxed(pred)`: the scan dequeues EVERY node whose context the predicate accepts
+(`ctx c`: context == c; `leq k`: context ≤ k, the `predicate_leq` of the bounded queue) -/
+def NKind.isPredAll : NKind → Bool
+  | .ctx _ | .leq _ => true
+  | _ => false
+
 /-- the notifier made condition `c` true and has not yet finished dequeuing every waiter with context `x` -/
 def pendingFor (n : Notifier) (c x : Nat) : Bool :=
   match n.ops with
@@ -32,6 +38,7 @@ def pendingFor (n : Notifier) (c x : Nat) : Bool :=
       (match k with
        | .all | .abort => n.pc == .fence || n.pc == .test || n.pc == .lock || n.pc == .epoch || n.pc == .flush
        | .ctx _ => n.pc == .fence || n.pc == .test || n.pc == .lock || n.pc == .epoch || n.pc == .scan || n.pc == .mark
+       | .leq _ => n.pc == .fence || n.pc == .test || n.pc == .lock || n.pc == .epoch || n.pc == .scan || n.pc == .mark
        | .onec _ => n.pc == .fence || n.pc == .test || n.pc == .lock || n.pc == .epoch || n.pc == .scan
        | .one => false)
   | _ => false
